@@ -29,4 +29,21 @@ def pipeline (cfg : GenCfg) (o : PipeOracles) (cmps : List Cmp) (inputs : List (
   let g2 ← generateNames o.names g1
   pure ⟨g0, g1, repl, g2⟩
 
+/-- `process_meta_data` of further named sample lists into an existing registry -/
+def buildGraphFrom (cfg : GenCfg) (o : GenOracles) (g0 : Graph) (inputs : List (String × List Json)) : Except PyErr Graph :=
+  inputs.foldlM (fun g (inp : String × List Json) => do
+    match ← generate cfg o inp.2 with
+    | .obj fs => pure (processMetaData g fs (some inp.1)).1
+    | _ => throw PyErr.typeError) g0
+
+/-- a registry that is merged, receives more data and is merged again (library use: several `merge_models()` calls) -/
+def pipelineTwo (cfg : GenCfg) (o : PipeOracles) (cmps : List Cmp) (first more : List (String × List Json)) :
+    Except PyErr PipeResult := do
+  let g0 ← buildGraph cfg o.gen first
+  let (g1, _) ← mergeModels cfg o.gen.str cmps g0
+  let g2 ← buildGraphFrom cfg o.gen g1 more
+  let (g3, repl) ← mergeModels cfg o.gen.str cmps g2
+  let g4 ← generateNames o.names g3
+  pure ⟨g2, g3, repl, g4⟩
+
 end J2M
